@@ -174,3 +174,7 @@ pub fn uf_inv_enc_keys(enc: &RoundKeys) -> RoundKeys {
 pub fn uf_transform(block: u128, table: &Table) -> u128 {
     word(&ufs::blk(&bytes(block), &[0u8; 16], table as *const Table as usize))
 }
+
+// ---- contracts of key expansion / inversion as spec functions with the real signatures (stubs for api_*.rs)
+pub fn spec_expand_enc_keys(key: &Key) -> RoundKeys { unsafe { core::mem::transmute(kz::key_schedule(&key.0)) } }
+pub fn spec_inv_enc_keys(enc: &RoundKeys) -> RoundKeys { unsafe { core::mem::transmute(spec_inv_keys(&raw_keys(enc))) } }
